@@ -295,6 +295,7 @@ def product_jobs(tier):
         for k in range(NP):
             harn.append('  ls.e[%d].x = (U_t)%d;' % (k, ((k + 1) << 1) + signs[k]))
         harn += ['  U_t n0 = s.assigns.n;',
+                 '  xt_recu(90, xt_sigma);',
                  '  struct smt_lit ret = smt_sat_core_new_at_most_one__vec_lit(&s, ls);',
                  '  __CPROVER_assert(__exc == 0, "noexcept");',
                  '  __CPROVER_assert(s.assigns.n > n0 + 2 && s.assigns.n <= XT_MAXV, "product_encoding_used");',
@@ -326,7 +327,26 @@ def product_jobs(tier):
                        abstract_fields={'smt::sat_core': ['constrs', 'watches', 'assigns', 'prop_q', 'trail', 'trail_lim', 'reason', 'level', 'exprs', 'listening'],
                                         'smt::constr': ['sat', 'id'], 'smt::clause': ['lits'], 'smt::sat_value_listener': []},
                        harness='\n'.join(harn), roots=['smt_sat_core_ctor', 'smt_sat_core_new_var'], timeout=3000, mem_gb=32, mem_est=10, solver=SOLVER,
+                       replay={'driver': 'sat', 'stanza': PRODUCT_REPLAY % (NP, ', '.join(str(x) for x in signs), NP)},
                        force_types=['std::vector<smt::lit>', 'std::vector<unsigned short>', 'std::vector<std::vector<smt::constr *>>', 'std::vector<smt::constr *>', 'std::vector<unsigned long>'],
                        bounded='BOUNDED STAND-IN, not a proof: one concrete argument list of %d distinct undecided literals (signs %s) on a fresh network; symbolic assignment; '
                                'the whole real code inline' % (NP, ''.join('+' if x else '-' for x in signs))))
     return out
+
+
+PRODUCT_REPLAY = '''  sat_core *sat = new sat_core(); for (int i = 0; i < %d; i++) sat->new_var();
+  std::vector<lit> ls; { const int sg_[] = {%s}; for (int k = 0; k < %d; k++) ls.push_back(lit((var)(k + 1), sg_[k] != 0)); }
+  lit ret = sat->new_at_most_one(ls);
+  // over all models of the real clause database: the literal forces at-most-one, and every pattern with at most one true argument keeps a model with the literal true
+  size_t nv = sat->assigns.size(); std::string why; std::set<unsigned long> possible;
+  for (unsigned long s = 0; s < (1ul << nv); s++)
+    if (sg_ext(s, sat->assigns) && sg_sat_db(s, *sat, 0) && sg(s, ret))
+    {
+      unsigned long pat = 0; size_t c = 0; for (size_t k = 0; k < ls.size(); k++) if (sg(s, ls[k])) { pat |= 1ul << k; c++; }
+      if (c > 1 && why.empty()) { ok = false; why += " model sigma=" + std::to_string(s) + " has the literal true and " + std::to_string(c) + " arguments true;"; }
+      possible.insert(pat);
+    }
+  if (!possible.count(0)) { ok = false; why += " no model with the literal true and no argument true;"; }
+  for (size_t k = 0; k < ls.size(); k++) if (!possible.count(1ul << k)) { ok = false; why += " no model with the literal true and only argument " + std::to_string(k) + " true;"; }
+  observed = "new_at_most_one(" + show(ls) + ") = " + show(ret) + ":" + why; required = "literal true forces at-most-one; no satisfying pattern excluded";
+'''
